@@ -27,7 +27,7 @@ ANCHORS: dict[str, list[tuple[str, str]]] = {
                                                                   "LinearCombination", "VectorPowerSum", "VectorUnarySum")]
            + [("core/matrices.py", f"{c}.jacobian_row") for c in ("MatrixSum", "QuadraticForm")]
            + [("core/expressions.py", "Expression.jacobian_row")],
-    "C04": [("analysis.py", n) for n in ("compute_degree", "_estimate_tree_depth", "_compute_degree_iterative",
+    "C04": [("analysis.py", n) for n in ("compute_degree", "_estimate_tree_depth",
                                           "_compute_degree_cached", "is_linear", "is_quadratic")]
            + [("core/expressions.py", "Expression.degree")],
     "C05": [("analysis.py", n) for n in ("extract_all_linear_coefficients", "_try_extract_fast_binop", "_vector_is_aligned",
